@@ -9,6 +9,7 @@ import Props.Tables
 import Proofs.ErrFlow
 import Proofs.FunctionsSafe
 import Proofs.WellTyped
+import Proofs.SortKeys
 namespace Jmes.Props
 open Jmes Jmes.Fn
 
@@ -113,6 +114,43 @@ theorem C10_mixed_keys_sort_by (f : Val N → Res (Val N)) (x y : Val N) (n : N)
   cases k with
   | num m => exact absurd rfl (hk m)
   | _ => simp only [sortBy, h0, keysNum, h1]; exact ⟨_, rfl⟩
+
+/-- `sort_by` over an array of ANY length: when the first key is a number and ANY later element — wherever it sits — has a key
+    that is not a number, the call is an error (no key evaluation panicking).  (Round 11's C10-m21 / C11-m22 validate only part
+    of the keys once the array is longer than a block of the sorting routine.) -/
+theorem C10_mixed_keys_sort_by_any_position (f : Val N → Res (Val N)) (x : Val N) (rest : List (Val N)) (n : N) (y k : Val N)
+    (h0 : f x = .ok (.num n)) (hy : y ∈ rest) (h1 : f y = .ok k) (hk : ∀ m, k ≠ .num m)
+    (hp : ∀ z ∈ rest, ∀ p, f z ≠ .panic p) : ∃ e, sortBy f (x :: rest) = .err e := by
+  have hnone := keysNum_none_of_odd_key f rest y k hy h1 hk hp
+  cases rest with
+  | nil => cases hy
+  | cons r rs => simp only [sortBy, h0, hnone]; exact ⟨_, rfl⟩
+
+theorem C10_mixed_keys_sort_by_strings_any_position (f : Val N → Res (Val N)) (x : Val N) (rest : List (Val N)) (s0 : Bytes) (y k : Val N)
+    (h0 : f x = .ok (.str s0)) (hy : y ∈ rest) (h1 : f y = .ok k) (hk : ∀ s, k ≠ .str s)
+    (hp : ∀ z ∈ rest, ∀ p, f z ≠ .panic p) : ∃ e, sortBy f (x :: rest) = .err e := by
+  have hnone := keysStr_none_of_odd_key f rest y k hy h1 hk hp
+  cases rest with
+  | nil => cases hy
+  | cons r rs => simp only [sortBy, h0, hnone]; exact ⟨_, rfl⟩
+
+/-- `max_by` / `min_by` likewise, for any length and any position of the odd key. -/
+theorem C10_mixed_keys_extreme_by_any_position (f : Val N → Res (Val N)) (isMax : Bool) (x : Val N) (rest : List (Val N)) (n : N) (y k : Val N)
+    (h0 : f x = .ok (.num n)) (hy : y ∈ rest) (h1 : f y = .ok k) (hk : ∀ m, k ≠ .num m)
+    (hp : ∀ z ∈ rest, ∀ p, f z ≠ .panic p) : ∃ e, extremeBy f isMax (x :: rest) = .err e := by
+  simp only [extremeBy, h0]
+  exact byLoopNum_err_of_odd_key f _ rest y k hy h1 hk hp _ _
+
+theorem C10_mixed_keys_extreme_by_strings_any_position (f : Val N → Res (Val N)) (isMax : Bool) (x : Val N) (rest : List (Val N)) (s0 : Bytes) (y k : Val N)
+    (h0 : f x = .ok (.str s0)) (hy : y ∈ rest) (h1 : f y = .ok k) (hk : ∀ s, k ≠ .str s)
+    (hp : ∀ z ∈ rest, ∀ p, f z ≠ .panic p) : ∃ e, extremeBy f isMax (x :: rest) = .err e := by
+  simp only [extremeBy, h0]
+  exact byLoopStr_err_of_odd_key f _ rest y k hy h1 hk hp _ _
+
+/-- Non-vacuity of the any-position statements: 33 number keys with one string key at index 20 (the shape round 11's changes let through). -/
+example : ∃ e, sortBy (N := Int) (fun v => .ok v) (.num 0 :: ((List.range 32).map fun (i : Nat) => if i = 19 then Val.str [0x78] else Val.num (40 - (i : Int)))) = .err e :=
+  C10_mixed_keys_sort_by_any_position _ _ _ 0 (.str [0x78]) (.str [0x78]) rfl (List.mem_map.mpr ⟨19, by decide, by simp⟩) rfl (by intro m h; cases h)
+    (by intro z _ p h; cases h)
 
 /-! Non-vacuity. -/
 example : sigOf (keyBytes "merge") = some [{ types := [.object], variadic := true }] := by decide +kernel
